@@ -28,7 +28,7 @@ def RealOf(f):
 BUILTIN_NAMES = {'len', 'min', 'max', 'int', 'range', 'enumerate', 'list', 'callable', 'isinstance', 'hex', 'str',
                  'bool', 'abs', 'print', 'bytes', 'bytearray', 'sum', 'float', 'tuple', 'dict'}
 SPEC_NAMES = {'old', 'implies', 'forall', 'exists', 'ite', 'octets', 'bits', 'seq', 'at_entry', 'unchanged',
-              'same_elems', 'same_list', 'iff', 'keys_forall', 'typeis', 'fresh_list', 'count', 'select', 'intdiv',
+              'same_elems', 'same_list', 'has_keys', 'table_same_except', 'iff', 'keys_forall', 'typeis', 'fresh_list', 'count', 'select', 'intdiv',
               'is_none', 'rep', 'concat', 'at_head', 'has_key', 'no_alias', 'allocated_before', 'steps', 'sumlen', 'fn', 'method'}
 EXC_NAMES = set(EXC_PARENTS) | {'RuntimeWarning'}
 
@@ -1010,6 +1010,9 @@ class Interp:
                     return field_load(st, 'a:%s.%s' % (obj.cls, attr), T_, obj.t)
                 if attr in ci.methods:
                     return VBound(obj, ci.methods[attr])
+                pref = '_' + ci.short.lstrip('_') + '__'
+                if attr.startswith(pref) and attr[len(pref) - 2:] in ci.methods:
+                    return VBound(obj, ci.methods[attr[len(pref) - 2:]])
                 if attr in ci.consts:
                     return self.lift(ci.consts[attr])
                 if attr in ci.nested:
